@@ -1,8 +1,126 @@
-(* placeholder while the proofs are being written *)
+(* C16 - Generation options run exactly the selected rail categories (Colang 1.0).
+   Property theorems only; every proof is `exact <lemma>`; Print Assumptions beneath each.
+   Models: Pipe/Options.v (options.py, generate_async injection, llm_flows.co guards),
+   Pipe/GenLog.v (compute_generation_log); constants of processing_log.py / options.py are the
+   ones READ FROM THE CURRENT SOURCE (Gen/C16Consts.v). *)
 From Coq Require Import String List Bool.
-From NG Require Import Gen.C16Consts Pipe.GenLog Pipe.Options.
+From NG Require Import Gen.C16Consts Pipe.GenLog Pipe.GenLog_proofs Pipe.Options Pipe.Options_proofs
+                       Pipe.OptionsLog_proofs.
 Import ListNotations.
 Open Scope string_scope.
-Theorem C16_consts_tmp : mem "create_event" ignored_actions = true.
-Proof. exact eq_refl. Qed.
-Print Assumptions C16_consts_tmp.
+Open Scope list_scope.
+
+(* (T) the option tables of options.py: no `rails` key = all four categories; the list form
+   enables exactly the listed categories *)
+Theorem C16_option_forms :
+  parse_rails RAbsent = mkO true true true true /\
+  parse_rails (RList []) = mkO false false false false /\
+  parse_rails (RList ["input"]) = mkO true false false false /\
+  parse_rails (RList ["input"; "output"]) = mkO true false false true /\
+  parse_rails (RList ["output"]) = mkO false false false true /\
+  parse_rails (RList ["input"; "dialog"; "retrieval"; "output"]) = parse_rails RAbsent.
+Proof. exact (conj eq_refl (conj eq_refl (conj eq_refl (conj eq_refl (conj eq_refl eq_refl))))). Qed.
+Print Assumptions C16_option_forms.
+
+(* disabled categories make no calls; without dialog rails there is no LLM generation.
+   For every configuration, verdict function, text, options value - in the table or not. *)
+Theorem C16_table_disabled :
+  forall iv ov llm_text refusal predefined c o user bot,
+    let r := turn iv ov llm_text refusal predefined c (Some o) user bot in
+    (o_input o = false -> forall cl, In cl (calls r) -> k_cat cl <> CIn) /\
+    (o_output o = false -> forall cl, In cl (calls r) -> k_cat cl <> COut) /\
+    (o_retrieval o = false -> forall cl, In cl (calls r) -> k_cat cl <> CRet) /\
+    (o_dialog o = false -> llm r = []).
+Proof. exact disabled_no_calls. Qed.
+Print Assumptions C16_table_disabled.
+
+(* row "input only": no LLM call; the reply is the text the input rails let through
+   (`rails_rel`: first rejection blocks, rewrites are threaded) or the refusal *)
+Theorem C16_table_input_only :
+  forall iv ov llm_text refusal predefined c o user bot,
+    o_dialog o = false -> o_output o = false ->
+    let r := turn iv ov llm_text refusal predefined c (Some o) user bot in
+    llm r = [] /\
+    (o_input o = false -> answer r = RText user) /\
+    (o_input o = true ->
+       exists res, rails_rel iv 0 (c_in c) user res /\
+                   answer r = RText (match res with Passed t => t | Blocked _ => refusal end)).
+Proof. exact input_only. Qed.
+Print Assumptions C16_table_input_only.
+
+(* ... literally: the unchanged user text, a rewritten text, or the refusal *)
+Theorem C16_table_input_only_membership :
+  forall iv ov llm_text refusal predefined c o user bot,
+    o_dialog o = false -> o_output o = false ->
+    let r := turn iv ov llm_text refusal predefined c (Some o) user bot in
+    answer r = RText user \/ answer r = RText refusal \/
+    exists k t0 t', iv k t0 = Rewrite t' /\ answer r = RText t'.
+Proof. exact input_only_membership. Qed.
+Print Assumptions C16_table_input_only_membership.
+
+Theorem C16_table_input_only_unchanged :
+  forall iv ov llm_text refusal predefined c o user bot,
+    o_dialog o = false -> o_output o = false -> (forall k t, iv k t = Accept) ->
+    answer (turn iv ov llm_text refusal predefined c (Some o) user bot) = RText user.
+Proof. exact input_only_all_accept. Qed.
+Print Assumptions C16_table_input_only_unchanged.
+
+(* rows "input + output" and "output only" with a supplied bot message b *)
+Theorem C16_table_output_check :
+  forall iv ov llm_text refusal predefined c o user b,
+    o_dialog o = false -> o_output o = true ->
+    let r := turn iv ov llm_text refusal predefined c (Some o) user (Some b) in
+    llm r = [] /\
+    exists res_in,
+      (o_input o = true -> rails_rel iv 0 (c_in c) user res_in) /\
+      (o_input o = false -> res_in = Passed user) /\
+      match res_in with
+      | Blocked _ => answer r = RText refusal
+      | Passed _ => exists res, rails_rel ov 0 (c_out c) b res /\
+                                answer r = RText (match res with Passed t => t | Blocked _ => refusal end)
+      end.
+Proof. exact output_check. Qed.
+Print Assumptions C16_table_output_check.
+
+Theorem C16_table_output_check_membership :
+  forall iv ov llm_text refusal predefined c o user b,
+    o_dialog o = false -> o_output o = true ->
+    let r := turn iv ov llm_text refusal predefined c (Some o) user (Some b) in
+    answer r = RText b \/ answer r = RText refusal \/
+    exists k t0 t', ov k t0 = Rewrite t' /\ answer r = RText t'.
+Proof. exact output_check_membership. Qed.
+Print Assumptions C16_table_output_check_membership.
+
+(* the returned log: compute_generation_log never raises on the processing log of a turn, lists
+   exactly the rails that ran (`ran`: recorded by the turn machine next to each rail call), in
+   order, and `stop` is set on exactly the rail that blocked (the last one), on none otherwise.
+   For every option value (also None = no options), configuration with non-colliding flow
+   names, verdicts and texts. *)
+Theorem C16_log_rails :
+  forall iv ov llm_text refusal predefined c g user bot,
+    wf_cfg c ->
+    let r := turn iv ov llm_text refusal predefined c g user bot in
+    exists rails,
+      gen_log (plog r) = Some rails /\
+      map tn rails = ran r /\
+      match blocked r with
+      | None => Forall (fun a => ar_stop a = false) rails
+      | Some f => exists pre a, rails = pre ++ [a] /\ ar_name a = f /\ ar_stop a = true /\
+                                (ar_type a = "input" \/ ar_type a = "output") /\
+                                Forall (fun x => ar_stop x = false) pre
+      end.
+Proof. exact log_of_turn. Qed.
+Print Assumptions C16_log_rails.
+
+(* `stop` flags alone, as the property text puts it *)
+Theorem C16_log_stop :
+  forall iv ov llm_text refusal predefined c g user bot rails,
+    wf_cfg c ->
+    let r := turn iv ov llm_text refusal predefined c g user bot in
+    gen_log (plog r) = Some rails ->
+    (blocked r = None -> forall a, In a rails -> ar_stop a = false) /\
+    (forall f, blocked r = Some f ->
+       exists pre a, rails = pre ++ [a] /\ ar_name a = f /\ ar_stop a = true /\
+                     forall x, In x pre -> ar_stop x = false).
+Proof. exact log_stop_flags. Qed.
+Print Assumptions C16_log_stop.
